@@ -612,43 +612,85 @@ def const_slot_shared_by_size(db, rep, rule):
 def d12_const_name_kept(db, rep, rule="D12-CONST-NAME-KEPT"):
     """D12: instructions refer to a declared constant BY NAME.  orc_program_add_constant_str shares the slot of an equal
     constant; when it returns an existing slot the name the caller asked for must not get lost: the early return of a slot
-    found by value must lie under a must-fact that the names are equal, or that the requested name is one the parser made up
-    for a literal (those start with `_` and are never referred to again).  Otherwise `.const 4 c1 5` / `.const 4 c2 5` /
-    `addl d, s, c2` - a well-formed source - is rejected with "bad operand c2"."""
-    f = db.func("orc_program_add_constant_str", "orcprogram")
-    rep.saw(f)
-    fc = Facts(f)
-    rets = [r for r in f.walk() if r.k == "ReturnStmt" and r.c and r.c[0] is not None and strip_casts(r.c[0]).v is None
-            and any(y.k == "DeclRefExpr" and y.get("dk") == "local" for y in r.c[0].walk())
-            and any(a.k in ("ForStmt", "WhileStmt") for a in r.ancestors())]
-    if not rets:
-        raise AnalysisBroken("orc_program_add_constant_str: return of a shared slot not found")
-    nm = [p_["name"] for p_ in f.params if "char" in (p_.get("ty") or "")][-1]
-    for r in rets:
-        ok = False
-        for c_ in fc.conds(r):
-            if c_[0] == "switch":
+    found by value must lie under the condition that the names are equal, or that the requested name is exactly the spelling the
+    parser makes up for a literal of this size and value text (rebuilt there from size and value - a first-character test would
+    take a declared `_uno` for a literal).  Otherwise `.const 4 c1 5` / `.const 4 c2 5` / `addl d, s, c2` - a well-formed
+    source - is rejected with "bad operand c2"."""
+    f0 = db.func("orc_program_add_constant_str", "orcprogram")
+    rep.saw(f0)
+    tu = db.tu("orcprogram")
+
+    def shared_returns(g):
+        return [r for r in g.walk() if r.k == "ReturnStmt" and r.c and r.c[0] is not None and strip_casts(r.c[0]).v is None
+                and any(y.k == "DeclRefExpr" and y.get("dk") == "local" for y in r.c[0].walk())
+                and any(a.k in ("ForStmt", "WhileStmt") for a in r.ancestors())]
+    nm0 = [p_["name"] for p_ in f0.params if "char" in (p_.get("ty") or "")][-1]
+    others0 = [p_["name"] for p_ in f0.params if p_["name"] != nm0 and p_["name"] != f0.params[0]["name"]]
+
+    def generated_spelling(buf):
+        """`buf` is a local character array of orc_program_add_constant_str filled by one (s)nprintf whose arguments include the size
+        and the value text: the name the parser makes up for a literal, rebuilt from what identifies the literal"""
+        for c in f0.calls():
+            if c.name in ("snprintf", "sprintf", "__builtin_snprintf", "__builtin___snprintf_chk") and c.args() and access_path(strip_casts(c.args()[0])) == buf:
+                txt = " ".join(unparse(x) for x in c.args()[1:])
+                return all(o in txt for o in others0)
+        return False
+    # the search loop itself, or - when it has been moved into a helper of the same file - the helper, with its parameters
+    # bound to what orc_program_add_constant_str passes
+    sites = []
+    if shared_returns(f0):
+        sites.append((f0, nm0, {}))
+    else:
+        for c in f0.calls():
+            g = tu.fn.get(c.name or "")
+            if g is None or g.body is None or not shared_returns(g):
                 continue
-            e, pol = strip_casts(c_[0]), c_[1]
-            if e.k == "CallExpr" and e.name in ("strcmp",) and pol is False and any(access_path(strip_casts(a)) == nm for a in e.args()):
-                ok = True
-            if e.k == "BinaryOperator" and e.op in ("==", "!=") and unparse(strip_casts(e.c[0])).replace(" ", "") in ("%s[0]" % nm, "*%s" % nm) \
-                    and strip_casts(e.c[1]).v == ord("_") and (pol is True) == (e.op == "=="):
-                ok = True
-        # the two alternatives are one disjunction in the source: accept it when both atoms appear in the condition that dominates
-        if not ok:
+            bind = {}
+            for p_, a_ in zip(g.params, c.args()):
+                bind[p_["name"]] = access_path(strip_casts(a_)) or unparse(a_)
+            nmg = next((k for k, v in bind.items() if v == nm0), None)
+            sites.append((g, nmg, bind))
+    if not sites:
+        raise AnalysisBroken("orc_program_add_constant_str: return of a shared slot not found")
+
+    def flat(e, op):
+        e = strip_casts(e)
+        while e is not None and e.k == "ParenExpr":
+            e = strip_casts(e.c[0])
+        if e is not None and e.k == "BinaryOperator" and e.op == op:
+            return flat(e.c[0], op) + flat(e.c[1], op)
+        return [e]
+    for f, nm, bind in sites:
+        def name_equality(d):
+            """disjunct `strcmp (name, X) == 0` (or !strcmp) with X the existing slot's name or the generated literal spelling"""
+            d = strip_casts(d)
+            call = None
+            if d is not None and d.k == "BinaryOperator" and d.op == "==" and strip_casts(d.c[1]).v == 0:
+                call = strip_casts(d.c[0])
+            elif d is not None and d.k == "UnaryOperator" and d.op == "!":
+                call = strip_casts(d.c[0])
+            if call is None or call.k != "CallExpr" or call.name not in ("strcmp", "__builtin_strcmp") or len(call.args()) != 2:
+                return False
+            ar = [strip_casts(x) for x in call.args()]
+            if nm is None or not any(access_path(x) == nm for x in ar):
+                return False
+            other = [x for x in ar if access_path(x) != nm]
+            if not other:
+                return False
+            ot = access_path(other[0]) or unparse(other[0])
+            return ot.endswith(".name") or ot.endswith("->name") or generated_spelling(bind.get(ot, ot))
+        for r in shared_returns(f):
+            ok = False
             for x in f.walk():
-                if x.k == "IfStmt" and any(y.id == r.id for y in x.c[1].walk()):
-                    t = unparse(x.c[0]).replace(" ", "")
-                    if "strcmp(" in t and nm in t and "==0" in t:
+                if x.k == "IfStmt" and x.c[1] is not None and any(y.id == r.id for y in x.c[1].walk()):
+                    conj = [c_ for c_ in flat(x.c[0], "&&") if c_ is not None and nm is not None and any(y.k == "DeclRefExpr" and y.name == nm for y in c_.walk())]
+                    if conj and all(all(name_equality(d) for d in flat(c_, "||")) for c_ in conj):
                         ok = True
-        rep.check(ok, rule, where(f), "shared-slot@%s" % r.line,
-                  "an existing slot is returned only for the same name (or for a literal's made-up name)",
-                  "orc_program_add_constant_str returns the slot of an equal constant (line %s) whatever name was asked for: a constant declared under a "
-                  "second name is never recorded, and the instruction that uses that name is refused (`bad operand`), although the source is well-formed" % r.line,
-                  line=r.line)
-
-
+            rep.check(ok, rule, where(f), "shared-slot@%s" % r.line,
+                      "an existing slot is returned only for the same name (or for a literal's made-up name)",
+                      "%s returns the slot of an equal constant (line %s) whatever name was asked for: a constant declared under a "
+                      "second name is never recorded, and the instruction that uses that name is refused (`bad operand`), although the source is well-formed" % (f.name, r.line),
+                      line=r.line)
 
 
 def d13_declared_name_first(db, rep, rule="D13-DECLARED-NAME-FIRST"):
